@@ -163,7 +163,7 @@ class Violation(dict):
 
 class Outcome:
     """what one execution of a plan produced"""
-    __slots__ = ('violation', 'stats', 'nontrivial', 'case_hash', 'digest', 'decisions', 'logical', 'extra_hashes')
+    __slots__ = ('violation', 'stats', 'nontrivial', 'case_hash', 'digest', 'decisions', 'logical', 'extra_hashes', 'portable_digest')
 
     def __init__(self):
         self.violation = None          # Violation or None
@@ -174,6 +174,7 @@ class Outcome:
         self.decisions = []            # scheduler decisions actually taken
         self.logical = {}              # logical-time counters (steps, fs ops, api ops)
         self.extra_hashes = {}         # name -> iterable of ints, for distinct-X measures
+        self.portable_digest = None    # digest of what must be equal under ANOTHER string hash seed too (default: the digest itself)
 
     def count(self, k, n=1):
         self.stats[k] = self.stats.get(k, 0) + n
@@ -194,6 +195,7 @@ class Agg:
         self.extra = {}
         self.digest_xor = 0
         self.digests = {}              # run index -> digest (kept only when asked)
+        self.portable = {}
         self.violations = []           # (index, plan, decisions, violation)
         self.samples = []
         self.inconclusive = 0
@@ -218,6 +220,7 @@ class Agg:
         self.digest_xor ^= mix(idx, out.digest)
         if keep_digest:
             self.digests[idx] = out.digest
+            self.portable[idx] = out.portable_digest if out.portable_digest is not None else out.digest
         if keep_sample and len(self.samples) < 2 and out.nontrivial:
             self.samples.append({'run_index': idx, 'plan': plan, 'decisions': out.decisions[:40]})
         if out.violation is not None:
@@ -244,6 +247,7 @@ class Agg:
                 t |= s
         self.digest_xor ^= o.digest_xor
         self.digests.update(o.digests)
+        self.portable.update(getattr(o, 'portable', {}))
         self.violations.extend(o.violations)
         for s in o.samples:
             if len(self.samples) < 3:
